@@ -268,12 +268,15 @@ func (fc faultCase) explore(r *Run, cl string, en faultEntry, base string, calls
 			}
 			if k == n {
 				if fw.ncalls != n || (se == nil) != baseOK {
-					viol("fault-free-run-not-repeatable", plan, fmt.Sprintf("%d calls, err=%v; first run: %s", fw.ncalls, se, short(base, 200)))
+					// not a breach of this property (it is C02's business), but the basis of the oracle is gone
+					r.Count("fault-free-run-not-repeatable")
+					r.Notef("fault-free-run-not-repeatable", "%s: entry=%s second run made %d calls, err=%v; first run: %s", short(cl, 300), en.name, fw.ncalls, se, short(base, 200))
 				}
 				continue
 			}
 			if !fw.failed {
-				viol("fault-free-run-not-repeatable", plan, fmt.Sprintf("only %d calls were made, err=%v", fw.ncalls, se))
+				r.Count("fault-free-run-not-repeatable")
+				r.Notef("fault-free-run-not-repeatable", "%s: entry=%s %s: only %d calls were made, err=%v", short(cl, 300), en.name, plan, fw.ncalls, se)
 				continue
 			}
 			if plan.short {
